@@ -135,7 +135,7 @@ Section Spec.
 
   (* all registered classes, each once, in catalog order *)
   Definition all_classes : list N :=
-    fold_left (fun acc r => if memN (rec_class r) acc then acc else acc ++ [rec_class r]) (r_classes R) [].
+    fold_left (fun acc r => let k := rec_class r in if memN k acc then acc else acc ++ [k]) (r_classes R) [].
 
   Definition is_abstract (c : N) : bool :=
     match find (fun r => N.eqb (rec_class r) c) (r_classes R) with
